@@ -622,9 +622,10 @@ class TaskScenario(ScenarioData):
             forward
             and not self.property.get("start", self.scenarioIdx)
             and not is_milestone
-            and (effort == 0 or not allocations)
+            and effort == 0
         ):
-            # Non-effort task: find first working slot and set start
+            # Non-effort task: find first working slot and set start (a task with effort but
+            # nobody to do it cannot be scheduled and must not be given a date)
             upperLimit = self.project.dateToIdx(self.project["end"])
             while self.currentSlotIdx < upperLimit and not self.isWorkingTime(self.currentSlotIdx):
                 self.currentSlotIdx += 1
